@@ -465,6 +465,26 @@ func c07GenExtra(tier string, rng *rand.Rand, emit func(interface{})) {
 			}
 		}
 	}
+	// harness distributions with infinite support that are not piecewise linear: mixed (atom + exponential
+	// tail) and continuous with power-law tails (quantiles up to 1e260 scales out)
+	for i := 0; i < 30*mul; i++ {
+		a := genValue(rng, rng.Intn(4))
+		sc := math.Ldexp(1, rng.Intn(41)-20)
+		if i%2 == 0 {
+			w := []float64{0, 0.25, 0.5, 0.9375, 0.3}[rng.Intn(5)]
+			c := c07Case{Kind: 9, A: F64(a), B: F64(sc), P: F64(w)}
+			c.Op, c.Ys, c.Seeds = 6, toF64s(relLevels(w, w/2, math.Nextafter(w, 2), 1-math.Exp(-20)/2, 1-1e-12)), seeds()
+			emit(c)
+			c2 := c07Case{Op: 7, Kind: 9, A: F64(a), B: F64(sc), P: F64(w), Src: randSrc(anyY())}
+			emit(c2)
+		} else {
+			al := []float64{0.01, 0.02, 0.1, 0.5, 1, 3, 30}[rng.Intn(7)]
+			c := c07Case{Kind: 10, A: F64(a), B: F64(sc), P: F64(al)}
+			c.Op, c.Ys, c.Seeds = 6, toF64s(relLevels(1e-6, 1-1e-6)), seeds()
+			emit(c)
+			emit(c07Case{Op: 7, Kind: 10, A: F64(a), B: F64(sc), P: F64(al), Src: randSrc(anyY())})
+		}
+	}
 	// UDist and KDE through Rand as well
 	for i := 0; i < 20*mul; i++ {
 		n1, n2 := 1+rng.Intn(5), 1+rng.Intn(5)
